@@ -147,7 +147,7 @@ void ConfigWriter::EmitIdentifier(std::ostream& fp, const String& identifier, bo
 
 	boost::regex expr("^[a-zA-Z_][a-zA-Z0-9\\_]*$");
 	boost::smatch what;
-	if (boost::regex_search(identifier.GetData(), what, expr))
+	if (boost::regex_match(identifier.GetData(), what, expr))
 		fp << identifier;
 	else if (inAssignment)
 		EmitString(fp, identifier);
